@@ -1,9 +1,109 @@
 import Drivers.Proto
-/-! Model driver for property C06 (stub: no model operations registered yet). -/
-open Lean Proto
+import St4sd.Model.Dsl
+/-! Model driver for property C06: `{"op":"flatten", …namespace…}` → operational result, denotational
+specification, and what the naming / reference-splitting algorithms did before the fixes. -/
+open Lean Proto St4sd.Dsl
+
+def optChars (j : Json) (k : String) : Except String (Option (List Char)) := do
+  return (← getOptStr j k).map String.toList
+
+def parseTok (j : Json) : Except String Tok := do
+  match j.getObjVal? "l" with
+  | .ok v => return .lit (← v.getStr?).toList
+  | .error _ =>
+  match j.getObjVal? "p" with
+  | .ok v => return .par (← v.getStr?).toList
+  | .error _ =>
+  match j.getObjVal? "r" with
+  | .ok _ => return .ref (← getCharsList j "r") (← optChars j "m")
+  | .error _ => return .suf (← getCharsList j "s") (← optChars j "m")
+
+def parseVal (j : Json) : Except String Val := do
+  (← j.getArr?).toList.mapM parseTok
+
+def parseEnv (j : Json) : Except String Env := do
+  (← j.getArr?).toList.mapM fun e => do
+    let a ← e.getArr?
+    match a.toList with
+    | [n, v] => return ((← n.getStr?).toList, ← parseVal v)
+    | _ => throw "bad env entry"
+
+def parseParam (j : Json) : Except String Param := do
+  let d ← match j.getObjVal? "default" with
+    | .ok Json.null => pure none
+    | .ok v => pure (some (← parseVal v))
+    | .error _ => pure none
+  return ⟨← getChars j "name", d⟩
+
+def parseTemplate (j : Json) : Except String Template := do
+  let name ← getChars j "name"
+  let idx ← getNat j "idx"
+  let params ← (← getArr j "params").mapM parseParam
+  if ← getBool j "wf" then
+    let steps ← (← getArr j "steps").mapM fun e => do
+      match (← e.getArr?).toList with
+      | [a, b] => return ((← a.getStr?).toList, (← b.getStr?).toList)
+      | _ => throw "bad step"
+    let execute ← (← getArr j "execute").mapM fun e => do
+      return Exec.mk (← getChars e "target") (← parseEnv (← e.getObjVal? "args"))
+    return ⟨name, idx, params, .workflow steps execute⟩
+  else
+    return ⟨name, idx, params, .component (← parseVal (← j.getObjVal? "args"))⟩
+
+def parseNs (j : Json) : Except String Namespace := do
+  return ⟨← (← getArr j "templates").mapM parseTemplate, ← getChars j "entry", ← parseEnv (← j.getObjVal? "entryArgs")⟩
+
+def jloc (l : Loc) : Json := jarr (l.map jchars)
+
+def jerr : ErrLoc → Json
+  | .entry => jobj [("k", jstr "entrypoint")]
+  | .tmpl wf idx e => jobj [("k", jstr (if wf then "workflows" else "components")), ("i", jnat idx), ("e", jopt jnat e)]
+
+def jotok : OTok → Json
+  | .lit s => jobj [("l", jchars s)]
+  | .dref p f m => jobj [("d", jchars p), ("f", jloc f), ("m", jchars m)]
+
+def jtok : Tok → Json
+  | .lit s => jobj [("l", jchars s)]
+  | .par p => jobj [("p", jchars p)]
+  | .ref l m => jobj [("r", jloc l), ("m", jopt jchars m)]
+  | .suf l m => jobj [("s", jloc l), ("m", jopt jchars m)]
+
+def jcomp (c : Comp) : Json :=
+  jobj [("loc", jloc c.loc), ("name", jchars c.name), ("args", jarr (c.args.map jotok)),
+        ("refs", jarr (c.refs.map jotok)), ("producers", jarr (c.producers.map jloc))]
+
+def oldBehaviour (ns : Namespace) : Json :=
+  match ns.find ns.entry with
+  | none => Json.null
+  | some t =>
+    let acc := rootVisit ns t
+    let steps := acc.insts.map fun i => i.loc.getLast?.getD []
+    let names := assignNamesOld [] steps
+    let locs := acc.insts.map (·.loc)
+    let refs := acc.insts.flatMap fun i =>
+      (fullRefs (merge (substT (fun p => i.params.lookup p) i.arguments)) ++ i.params.flatMap fun a => fullRefs a.2).map (·.1)
+    jobj [("names", jarr (names.map jchars)),
+          ("names_distinct", jbool (names.eraseDups.length == names.length)),
+          ("names_valid", jbool (names.all validName)),
+          ("split_differs", jbool (refs.any fun l => (splitOld locs l).map (·.1) != (split locs l).map (·.1)))]
 
 def handle (j : Json) : Except String Json := do
   let op ← getStr j "op"
-  throw s!"unknown op {op}"
+  match op with
+  | "flatten" =>
+    let ns ← parseNs j
+    let spec := flattenSpec ns
+    let res := match flattenOp ns with
+      | .ok comps => [("ok", jarr (comps.map jcomp))]
+      | .invalid ph errs => [("invalid", jarr (errs.map jerr)), ("phase", jnat ph)]
+      | .outOfFuel => [("out_of_fuel", jbool true)]
+    return jobj (res ++ [("spec", jarr (spec.map fun s => jobj [("loc", jloc s.loc), ("args", jarr (s.args.map jtok))])),
+                         ("edges", jarr ((specEdges spec).map fun e => jarr [jloc e.1, jloc e.2])),
+                         ("old", oldBehaviour ns)])
+  | "roman" =>
+    let n ← getNat j "n"
+    return jobj [("roman", jchars (roman n))]
+  | _ => throw s!"unknown op {op}"
 
 def main : IO Unit := serve handle
